@@ -282,7 +282,7 @@ def _scripts_of(name, consts, n, depth, sd):
 
 def script_worlds(tier, sd=0):
     """Worlds whose decision scripts come from TLC-simulated behaviours of SimMC."""
-    n, depth = (10, 60) if tier == "quick" else (400, 90)
+    n, depth = (10, 60) if tier == "quick" else (150, 90)
     # configurations mc_world() cannot express as a JobGraph world (trace-replay graphs, batched loader) are left out
     jobs = [(name, consts, n, depth, sd + i) for i, (name, consts) in enumerate(cfgs("thorough"))
             if name not in ("multi_timestamp", "batched_updates")]
